@@ -134,7 +134,7 @@ def boot(cfg, use_threads=False, ctx=None):
     sys.path.insert(0, lib)
   purge_carbon()
 
-  r = simreactor.install()
+  r = simreactor.install(cfg.get('t0'))
   w.reactor = r
   from twisted.python import log as txlog
   if not getattr(txlog, '_sim_logging_started', False):
@@ -211,13 +211,16 @@ def boot(cfg, use_threads=False, ctx=None):
     cclient.CarbonClientFactory.__hash__ = \
         lambda self: zlib.crc32(repr(self.destination).encode('utf-8'))
     cclient.FakeClientFactory.__hash__ = lambda self: 0
+  if daemon in ('aggregator', 'relay'):
+    import carbon.aggregator.rules as crules
+    w.rules_mod = crules
+    _TTL = crules.TTLCache
+    w.ttl_timer = _Timer(st.time)      # worlds may swap the function behind it per run
+    crules.TTLCache = lambda size, ttl: _TTL(size, ttl, timer=w.ttl_timer)
   if daemon == 'aggregator':
     import carbon.aggregator.buffers as cbuffers
-    import carbon.aggregator.rules as crules
     cbuffers.time = st
-    w.buffers_mod, w.rules_mod = cbuffers, crules
-    _TTL = crules.TTLCache
-    crules.TTLCache = lambda size, ttl: _TTL(size, ttl, timer=st.time)
+    w.buffers_mod = cbuffers
   w.root = maker(opts)
   if daemon == 'cache':
     import carbon.writer as cwriter
@@ -231,6 +234,14 @@ def boot(cfg, use_threads=False, ctx=None):
     app.startApplication(application, False)
   r.startRunning()
   return w
+
+
+class _Timer(object):
+  def __init__(self, fn):
+    self.fn = fn
+
+  def __call__(self):
+    return self.fn()
 
 
 class _PlainTime(object):
